@@ -196,11 +196,71 @@ class Evaluator:
             return self.decide(sp.Ne(v.expr, 0), fr, node)
         raise Unsupported(f"truth value of {v!r}")
 
+    def cheap_bool(self, c):
+        """Decide / normalise a Boolean term without sympy.simplify (which is unboundedly slow on large terms)."""
+        if c is True or c is sp.true:
+            return sp.true
+        if c is False or c is sp.false:
+            return sp.false
+        if isinstance(c, sp.core.relational.Relational):
+            try:
+                d = c.lhs - c.rhs
+            except Exception:
+                return c
+            if isinstance(c.lhs, sp.core.function.AppliedUndef) or isinstance(c.rhs, sp.core.function.AppliedUndef):
+                if d == 0:
+                    return sp.true if isinstance(c, (sp.Eq, sp.Le, sp.Ge)) else sp.false
+                return c
+            if not d.is_number and sp.count_ops(d) < 60:
+                try:
+                    d = sp.expand(d)
+                except Exception:
+                    pass
+            pos, neg, zero = d.is_positive, d.is_negative, d.is_zero
+            if d.is_number and d.is_real:
+                pos, neg, zero = bool(d > 0), bool(d < 0), bool(d == 0)
+            t = type(c)
+            if t is sp.Eq and zero is not None:
+                return sp.true if zero else sp.false
+            if t is sp.Ne and zero is not None:
+                return sp.false if zero else sp.true
+            if t is sp.Eq and (pos or neg):
+                return sp.false
+            if t is sp.Ne and (pos or neg):
+                return sp.true
+            if t is sp.Lt:
+                if neg:
+                    return sp.true
+                if pos or zero or d.is_nonnegative:
+                    return sp.false
+            if t is sp.Le:
+                if neg or zero or d.is_nonpositive:
+                    return sp.true
+                if pos:
+                    return sp.false
+            if t is sp.Gt:
+                if pos:
+                    return sp.true
+                if neg or zero or d.is_nonpositive:
+                    return sp.false
+            if t is sp.Ge:
+                if pos or zero or d.is_nonnegative:
+                    return sp.true
+                if neg:
+                    return sp.false
+            return c
+        if isinstance(c, (sp.And, sp.Or, sp.Not, sp.Xor)):
+            try:
+                return c.func(*[self.cheap_bool(a) for a in c.args])
+            except Exception:
+                return c
+        return c
+
     def decide(self, cond, fr=None, node=None):
         if cond is True or cond is False:
             return cond
         try:
-            c = sp.simplify(cond) if not isinstance(cond, (sp.logic.boolalg.BooleanTrue, sp.logic.boolalg.BooleanFalse)) else cond
+            c = self.cheap_bool(cond)
         except Exception:
             c = cond
         if c is sp.true or c == True:   # noqa: E712
